@@ -9,7 +9,7 @@ from . import _jgen as G
 
 LEVEL = "proof"
 # C functions this check's models mirror (source-text fingerprints are recorded in the evidence, see translate/funchash.py)
-MODELLED_FUNCS = {'src/json/iwjson.c': ['_jbl_create_patch', '_jbl_target_apply_patch', '_jbl_node_find', '_jbn_remove_item', '_jbl_patch_node', '_jbl_patch', '_jbl_ptr_array_index']}
+MODELLED_FUNCS = {'src/json/iwjson.c': ['_jbl_create_patch', '_jbl_target_apply_patch', '_jbl_node_find', '_jbn_remove_item', '_jbl_patch_node', '_jbl_patch', '_jbl_ptr_array_index', 'jbl_patch', 'jbl_patch_from_json', '_jbl_node_from_binn', '_jbl_from_node_impl']}
 MANIFEST = dict(
     level="proof",
     text=("Lean 4 theorems over an executable model of iowow's JSON Patch (pointer decoding, look-up by cached array index, "
@@ -18,12 +18,23 @@ MANIFEST = dict(
           "member names and every sequence of add/remove/replace/move/copy/test, RFC 6902 accepts => the model returns exactly "
           "the RFC result, RFC 6902 rejects => the model reports an error (hypotheses exclude only the two listed dialect "
           "findings: path '/', '-' outside insertions); the sorted member comparison behind test = RFC JSON equality; a failed "
-          "patch leaves the binary document unchanged for every patch document; the model is tied to the code by a "
+          "patch leaves the binary document unchanged for every patch document; the binary entry points are also modelled on "
+          "the binn BYTES as the composition C14 reader -> tree patch -> C14 writer -> swap (jbl_bytes_*): for every holder "
+          "whose bytes decode to a well-formed document and every RFC 6902 program, success => the new bytes decode to exactly "
+          "the RFC result of the decoded old bytes and are well-formed again (so the statement iterates over a list of patch "
+          "documents: jbl_bytes_rfc_seq_partial), a result the binary form cannot hold (key > 255 bytes, keys equal ignoring "
+          "ASCII case) => JBL_ERROR_CREATION, any error on any holder => bytes unchanged; the model is tied to the code by a "
           "differential run of jbn_patch / jbn_patch_auto / jbl_patch / jbl_patch_from_json against the compiled Lean "
-          "definitions on generated documents x patch programs, with an independent python RFC 6902 implementation as oracle"),
+          "definitions on generated documents x patch programs - for the binary entry points also byte for byte (binn bytes "
+          "in, the holder's buffer out, single calls and sequences of calls on one holder) - with an independent python RFC "
+          "6902 implementation and an independent python binn decoder as oracle"),
     note=("trusted: Lean kernel, harness/generator, python oracle, gcc+ASan/UBSan; modelled not verified: the C control flow of "
           "the functions named; doubles compared by bit pattern (the code compares printed texts); documents have unique keys "
-          "(ignoring ASCII case), no NUL bytes; binn encode/decode is taken as the identity on such documents (C14)"),
+          "(ignoring ASCII case), no NUL bytes (results that violate the key conditions are covered by the byte-level theorems "
+          "and stream: refused, bytes unchanged); hypotheses of the byte-level theorems: integers fit int64 and strings/keys are "
+          "NUL free (leafOk: what the C types give), the encoded result is shorter than 2^31-9 bytes, the result is an object or "
+          "array; a holder whose root was replaced by a scalar is compared as a value, not as bytes; the JSON text of the patch "
+          "(printer/parser) is C13's"),
     technique="Lean 4 proof over executable model + differential correspondence (C harness vs compiled Lean driver) + python RFC 6902 oracle")
 MODULE = "IwModel.Props.C15"
 THEOREMS = ["IwModel.C15.parsed_wf", "IwModel.C15.klidx_inv", "IwModel.C15.klidx_inv_run", "IwModel.C15.klidx_inv_patch",
@@ -32,6 +43,9 @@ THEOREMS = ["IwModel.C15.parsed_wf", "IwModel.C15.klidx_inv", "IwModel.C15.klidx
             "IwModel.C15.binary_rfc_partial", "IwModel.C15.apply_rfc_err_partial", "IwModel.C15.binary_err_partial", "IwModel.C15.pointer_text_roundtrip", "IwModel.C15.patch_document_decoded", "IwModel.C15.jbl_patch_rfc_partial",
             "IwModel.C15.ext_increment", "IwModel.C15.ext_add_create_existing", "IwModel.C15.ext_add_create", "IwModel.C15.ext_swap",
             "IwModel.C15.binn_atomic", "IwModel.C15.binary_error_reported",
+            "IwModel.C15.jbl_bytes_atomic", "IwModel.C15.jbl_bytes_compose", "IwModel.C15.jbl_bytes_patch",
+            "IwModel.C15.rfc_result_leafOk", "IwModel.C15.jbl_bytes_rfc_partial", "IwModel.C15.jbl_bytes_rfc_seq_partial",
+            "IwModel.C15.holds_bytesB", "IwModel.C15.progBB_ok",
             "IwModel.C15.missing_target_reported", "IwModel.C15.slash_root_witness", "IwModel.C15.dash_last_witness"]
 
 UNSPEC = {"addcreate-unspecified", "swap-overlap", "swap-unspecified", "increment-overflow", "remove-root", "malformed-op", "unknown-op"}
@@ -461,12 +475,17 @@ def run(ctx):
                        "produced (same array several times, `-`, escaped segments, overlapping from/path), with at most one "
                        "deliberately failing operation (missing target, failed test, index past the end, move into own child); "
                        "separate streams: several operations on one array, the three extensions, known dialect differences, "
-                       "malformed patch documents (model comparison only); distinct = distinct op line; every case applies at least one operation")
+                       "malformed patch documents (model comparison only); byte-level streams: the document is handed over as binn bytes "
+                       "(python encoder, sometimes with wider integer/length fields than the writer's) and the holder's buffer is compared "
+                       "byte for byte with the composed Lean model - single calls, 2-5 calls on one holder, and programs whose result the "
+                       "binary form cannot hold (key of 255/256+ bytes, keys equal ignoring ASCII case, also removed again before the end); "
+                       "distinct = distinct op line; every case applies at least one operation")
     ctx.assumptions += ["documents have unique member names (also ignoring ASCII case) and no NUL bytes in keys/strings (what the binary form can hold, C14)",
                         "doubles in documents are not integer-valued and are compared by bit pattern in model and oracle (the code compares their printed texts)",
                         "`increment` never overflows int64 (signed overflow in the C code is undefined behaviour; UBSan would report it)",
                         "`swap` whose from and path overlap, or whose from is the whole document, is not generated (the one-line description of the extension does not determine a result)",
-                        "a binary document whose root was replaced by a scalar is only observed by its type (jbl holders are containers by construction)"]
+                        "a binary document whose root was replaced by a scalar is only observed by its type (patch mode) or as a value (byte-level ops); jbl holders are containers by construction",
+                        "byte-level ops: input buffers are well-formed documents (malformed buffers are C17's); the oracle decodes the output with its own binn reader and compares values, bytes are compared with the Lean model only"]
     selftest_note(ctx)
     ctx.translate()
     ok, drv_ok = ctx.prove(MODULE, THEOREMS)
